@@ -208,7 +208,13 @@ Proof. destruct s; intros H; try discriminate; cbn; auto. Qed.
 
 (** the machine at a statement boundary *)
 Definition boundary (pc0 : nat) (r : regs) (t : list regs) vs ps (st : state) : mstate :=
-  mk_m pc0 (r :: t) vs ps (vars st) (screen st) false.
+  mk_m pc0 (r :: t) vs ps (vars st) (to_mio (screen st)) false.
+
+Lemma of_to_mio i : of_mio (to_mio i) = i.
+Proof. destruct i; reflexivity. Qed.
+
+Lemma of_mio_set_scr m d : of_mio (mset_scr m d) = set_scr (of_mio m) d.
+Proof. reflexivity. Qed.
 
 Lemma cast_store q qs v : store q qs v = if qual_eqb qs q then Ok v else cast v q.
 Proof. destruct q, qs; reflexivity. Qed.
@@ -266,38 +272,45 @@ Proof. reflexivity. Qed.
 
 Lemma exec_print f p args st :
   exec (S f) (SPrint p args) st =
-  match print_items num_text is_negative args st (screen st) false with
-  | inl (d, skip, st') => Done (mk_state st' (if skip then d else println d))
-  | inr (x, q, d, st') => Failed x q (mk_state st' d)
+  match print_items num_text is_negative args st (scr (screen st)) false with
+  | inl (d, skip, st') => Done (mk_state st' (set_scr (screen st) (if skip then d else println d)))
+  | inr (x, q, d, st') => Failed x q (mk_state st' (set_scr (screen st) d))
   end.
 Proof. reflexivity. Qed.
 
 (** PRINT arguments *)
-Lemma print_items_ok p : forall args code pc0 r t vs ps st d skip,
+Lemma mset_scr_id m : mset_scr m (mscr m) = m.
+Proof. destruct m; reflexivity. Qed.
+Lemma mset_scr_twice m d d' : mset_scr (mset_scr m d) d' = mset_scr m d'.
+Proof. reflexivity. Qed.
+Lemma mscr_set m d : mscr (mset_scr m d) = d.
+Proof. reflexivity. Qed.
+
+Lemma print_items_ok p : forall args code pc0 r t vs ps st m skip,
   code_at code pc0 (flat_map (fun a => gen_print_arg a p) args) ->
-  match print_items num_text is_negative args st d skip with
+  match print_items num_text is_negative args st (mscr m) skip with
   | inl (d', skip', st') =>
-      exists a b, stepn (length (flat_map (fun a => gen_print_arg a p) args)) code (mk_m pc0 (r :: t) vs ps (vars st) d skip)
-        = MRunning (mk_m (pc0 + length (flat_map (fun a => gen_print_arg a p) args)) (mk_regs a b (rc r) (rd r) :: t) vs ps st' d' skip')
+      exists a b, stepn (length (flat_map (fun a => gen_print_arg a p) args)) code (mk_m pc0 (r :: t) vs ps (vars st) m skip)
+        = MRunning (mk_m (pc0 + length (flat_map (fun a => gen_print_arg a p) args)) (mk_regs a b (rc r) (rd r) :: t) vs ps st' (mset_scr m d') skip')
   | inr (x, q, d', st') =>
-      exists k s', stepn k code (mk_m pc0 (r :: t) vs ps (vars st) d skip) = MError x q s' /\ mscreen s' = d'
+      exists k s', stepn k code (mk_m pc0 (r :: t) vs ps (vars st) m skip) = MError x q s' /\ mscreen s' = mset_scr m d'
   end.
 Proof.
-  induction args as [|a args IH]; intros code pc0 r t vs ps st d skip Hc; cbn [flat_map print_items].
-  - exists (ra r), (rb r). cbn [length stepn]. destruct r as [xa xb xc xd]. cbn [ra rb rc rd]. do 2 f_equal. lia.
+  induction args as [|a args IH]; intros code pc0 r t vs ps st m skip Hc; cbn [flat_map print_items].
+  - exists (ra r), (rb r). cbn [length stepn]. destruct r as [xa xb xc xd]. cbn [ra rb rc rd]. rewrite mset_scr_id. do 2 f_equal. lia.
   - pose proof (code_at_app_l _ _ _ _ Hc) as Hl. pose proof (code_at_app_r _ _ _ _ Hc) as H1.
     destruct a as [| |e]; cbn [gen_print_arg] in *.
     + (* comma *)
-      specialize (IH code (pc0 + 1) r t vs ps st (next_zone d) true H1).
-      destruct (print_items num_text is_negative args st (next_zone d) true) as [[[d' skip'] st']|[[[x q] d'] st']].
+      specialize (IH code (pc0 + 1) r t vs ps st (mset_scr m (next_zone (mscr m))) true H1). rewrite mscr_set, ?mset_scr_twice in IH.
+      destruct (print_items num_text is_negative args st (next_zone (mscr m)) true) as [[[d' skip'] st']|[[[x q] d'] st']].
       * destruct IH as (a & b & IH). exists a, b. rewrite app_length, stepn_add. one_step Hl.
         destruct r as [xa xb xc xd]; cbn [ra rb rc rd] in *. replace (S pc0) with (pc0 + 1) by lia. rewrite IH.
         do 2 f_equal. cbn [length]. lia.
       * destruct IH as (k & s' & IH & Hd). exists (1 + k), s'. split; [|exact Hd]. rewrite stepn_add. one_step Hl.
         destruct r as [xa xb xc xd]; cbn [ra rb rc rd] in *. replace (S pc0) with (pc0 + 1) by lia. exact IH.
     + (* semicolon *)
-      specialize (IH code (pc0 + 1) r t vs ps st d true H1).
-      destruct (print_items num_text is_negative args st d true) as [[[d' skip'] st']|[[[x q] d'] st']].
+      specialize (IH code (pc0 + 1) r t vs ps st m true H1).
+      destruct (print_items num_text is_negative args st (mscr m) true) as [[[d' skip'] st']|[[[x q] d'] st']].
       * destruct IH as (a & b & IH). exists a, b. rewrite app_length, stepn_add. one_step Hl.
         destruct r as [xa xb xc xd]; cbn [ra rb rc rd] in *. replace (S pc0) with (pc0 + 1) by lia. rewrite IH.
         do 2 f_equal. cbn [length]. lia.
@@ -306,23 +319,23 @@ Proof.
     + (* expression *)
       pose proof (code_at_app_l _ _ _ _ Hl) as Hle. pose proof (code_at_app_r _ _ _ _ Hl) as Hlp.
       destruct (eval e (vars st)) as [v st1|x q] eqn:Ev.
-      * destruct (gen_expr_value e code pc0 r t vs ps (vars st) d skip v st1 Hle Ev) as [b1 Se].
+      * destruct (gen_expr_value e code pc0 r t vs ps (vars st) m skip v st1 Hle Ev) as [b1 Se].
         specialize (IH code (pc0 + length (gen_expr e ++ [(IPrintValue, epos e)])) (mk_regs v b1 (rc r) (rd r)) t vs ps
-                       (mk_state st1 (screen st)) (print d (item_text (item_of num_text is_negative v))) false H1).
-        cbn [vars] in IH.
-        assert (Sp : stepn (length (gen_expr e ++ [(IPrintValue, epos e)])) code (mk_m pc0 (r :: t) vs ps (vars st) d skip)
+                       (mk_state st1 (screen st)) (mset_scr m (print (mscr m) (item_text (item_of num_text is_negative v)))) false H1).
+        cbn [vars] in IH. rewrite mscr_set, ?mset_scr_twice in IH.
+        assert (Sp : stepn (length (gen_expr e ++ [(IPrintValue, epos e)])) code (mk_m pc0 (r :: t) vs ps (vars st) m skip)
                      = MRunning (mk_m (pc0 + length (gen_expr e ++ [(IPrintValue, epos e)])) (mk_regs v b1 (rc r) (rd r) :: t) vs ps st1
-                                      (print d (item_text (item_of num_text is_negative v))) false)).
+                                      (mset_scr m (print (mscr m) (item_text (item_of num_text is_negative v)))) false)).
         { rewrite app_length, stepn_add, Se. unfold after. one_step Hlp. do 2 f_equal. cbn [length]. lia. }
-        destruct (print_items num_text is_negative args (mk_state st1 (screen st)) (print d (item_text (item_of num_text is_negative v))) false)
+        destruct (print_items num_text is_negative args (mk_state st1 (screen st)) (print (mscr m) (item_text (item_of num_text is_negative v))) false)
           as [[[d' skip'] st']|[[[x q] d'] st']].
         -- destruct IH as (a & b & IH). exists a, b.
            rewrite app_length with (l := gen_expr e ++ [(IPrintValue, epos e)]). rewrite stepn_add, Sp, IH.
            cbn [rc rd]. do 2 f_equal. lia.
         -- destruct IH as (k & s' & IH & Hd). exists (length (gen_expr e ++ [(IPrintValue, epos e)]) + k), s'.
            split; [|exact Hd]. rewrite stepn_add, Sp. exact IH.
-      * destruct (gen_expr_error e code pc0 r t vs ps (vars st) d skip x q Hle Ev) as (k & s' & Hk & Hs & Hd & _).
-        exists k, s'. split; assumption.
+      * destruct (gen_expr_error e code pc0 r t vs ps (vars st) m skip x q Hle Ev) as (k & s' & Hk & Hs & Hd & _).
+        exists k, s'. split; [assumption|]. rewrite Hd, mset_scr_id. reflexivity.
 Qed.
 
 (** one straight-line statement: the machine reaches exactly the state the semantics prescribe, or
@@ -335,7 +348,7 @@ Theorem simple_stmt_ok f s code pc0 r t vs ps st :
       exists a b, stepn (length (simple_code s)) code (boundary pc0 r t vs ps st)
         = MRunning (boundary (pc0 + length (simple_code s)) (mk_regs a b (rc r) (rd r)) t vs ps st')
   | Failed x q st' =>
-      exists k s', stepn k code (boundary pc0 r t vs ps st) = MError x q s' /\ mscreen s' = screen st'
+      exists k s', stepn k code (boundary pc0 r t vs ps st) = MError x q s' /\ of_mio (mscreen s') = screen st'
   | _ => False
   end.
 Proof.
@@ -345,32 +358,32 @@ Proof.
     pose proof (code_at_app_l _ _ _ _ Hc) as Hl. pose proof (code_at_app_r _ _ _ _ Hc) as H1.
     destruct (eval e (vars st)) as [v st1|x q] eqn:Ev.
     + destruct (convert_to (snd n) e v) as [w|x] eqn:Ecv.
-      * destruct (casting_value e (snd n) code pc0 r t vs ps (vars st) (screen st) false v st1 w Hl Ev Ecv) as [b Sc].
+      * destruct (casting_value e (snd n) code pc0 r t vs ps (vars st) (to_mio (screen st)) false v st1 w Hl Ev Ecv) as [b Sc].
         exists w, b. rewrite app_length, stepn_add, Sc. unfold after, gen_store in *.
         one_step H1. one_step Hr. cbn [vars screen]. do 2 f_equal. cbn [length]. lia.
-      * destruct (casting_error e (snd n) code pc0 r t vs ps (vars st) (screen st) false v st1 x Ht Hl Ev Ecv)
+      * destruct (casting_error e (snd n) code pc0 r t vs ps (vars st) (to_mio (screen st)) false v st1 x Ht Hl Ev Ecv)
           as (k & s' & Hk & Hs' & Hd & _).
-        exists k, s'. split; assumption.
+        exists k, s'. split; [assumption|]. rewrite Hd. apply of_to_mio.
     + unfold gen_expr_casting in Hl. apply code_at_app_l in Hl.
-      destruct (gen_expr_error e code pc0 r t vs ps (vars st) (screen st) false x q Hl Ev) as (k & s' & Hk & Hs' & Hd & _).
-      exists k, s'. split; assumption.
+      destruct (gen_expr_error e code pc0 r t vs ps (vars st) (to_mio (screen st)) false x q Hl Ev) as (k & s' & Hk & Hs' & Hd & _).
+      exists k, s'. split; [assumption|]. rewrite Hd. apply of_to_mio.
   - (* PRINT *)
     rewrite exec_print. unfold boundary.
     set (body := flat_map (fun a => gen_print_arg a p) args) in *.
-    assert (S3 : stepn 3 code (mk_m pc0 (r :: t) vs ps (vars st) (screen st) false)
-                 = MRunning (mk_m (pc0 + 3) (mk_regs (VInteger 0%Z) (rb r) (rc r) (rd r) :: t) vs ps (vars st) (screen st) false)).
+    assert (S3 : stepn 3 code (mk_m pc0 (r :: t) vs ps (vars st) (to_mio (screen st)) false)
+                 = MRunning (mk_m (pc0 + 3) (mk_regs (VInteger 0%Z) (rb r) (rc r) (rd r) :: t) vs ps (vars st) (to_mio (screen st)) false)).
     { pose proof Hc as Hc'. one_step Hc'. one_step Hr. one_step Hr0. do 2 f_equal. lia. }
     change ([(IPrintSetPrinterType, p); (ILoad (VInteger 0%Z), p); (IPrintSetFormat, p)] ++ body ++ [(IPrintEnd, p)])
       with ([(IPrintSetPrinterType, p); (ILoad (VInteger 0%Z), p); (IPrintSetFormat, p)] ++ (body ++ [(IPrintEnd, p)])) in *.
     pose proof (code_at_app_r _ _ _ _ Hc) as Hc2. cbn [length] in Hc2.
     pose proof (code_at_app_l _ _ _ _ Hc2) as Hl. pose proof (code_at_app_r _ _ _ _ Hc2) as H1.
-    pose proof (print_items_ok p args code (pc0 + 3) (mk_regs (VInteger 0%Z) (rb r) (rc r) (rd r)) t vs ps st (screen st) false Hl) as HP.
-    fold body in HP.
-    destruct (print_items num_text is_negative args st (screen st) false) as [[[d' skip'] st']|[[[x q] d'] st']].
+    pose proof (print_items_ok p args code (pc0 + 3) (mk_regs (VInteger 0%Z) (rb r) (rc r) (rd r)) t vs ps st (to_mio (screen st)) false Hl) as HP.
+    fold body in HP. change (mscr (to_mio (screen st))) with (scr (screen st)) in HP.
+    destruct (print_items num_text is_negative args st (scr (screen st)) false) as [[[d' skip'] st']|[[[x q] d'] st']].
     + destruct HP as (a & b & HP). exists a, b. cbn [rc rd] in HP.
       rewrite app_length with (l' := body ++ _). rewrite stepn_add. cbn [length]. rewrite S3.
-      rewrite app_length, stepn_add, HP. one_step H1. cbn [vars screen]. do 2 f_equal. cbn [length]. lia.
-    + destruct HP as (k & s' & HP & Hd). exists (3 + k), s'. split; [|exact Hd]. rewrite stepn_add, S3. exact HP.
+      rewrite app_length, stepn_add, HP. one_step H1. cbn [vars screen]. destruct skip'; do 2 f_equal; cbn [length]; lia.
+    + destruct HP as (k & s' & HP & Hd). exists (3 + k), s'. split; [rewrite stepn_add, S3; exact HP|]. rewrite Hd. reflexivity.
 Qed.
 
 
@@ -383,7 +396,7 @@ Lemma simple_block_ok f : forall p code pc0 r t vs ps st,
       exists a b, stepn (length (flat_map simple_code p)) code (boundary pc0 r t vs ps st)
         = MRunning (boundary (pc0 + length (flat_map simple_code p)) (mk_regs a b (rc r) (rd r)) t vs ps st')
   | Failed x q st' =>
-      exists k s', stepn k code (boundary pc0 r t vs ps st) = MError x q s' /\ mscreen s' = screen st'
+      exists k s', stepn k code (boundary pc0 r t vs ps st) = MError x q s' /\ of_mio (mscreen s') = screen st'
   | _ => False
   end.
 Proof.
@@ -444,14 +457,14 @@ Proof.
     rewrite <- app_assoc. reflexivity.
 Qed.
 
-Definition st0 : state := mk_state [] dev0.
+Definition st0 : state := mk_state [] io0.
 
 Theorem straightline_program_ok f p :
   forallb is_simple p = true -> Forall typed_simple p ->
   let c := resolve (code (gen_program [] p)) in
   match exec_program (S f) p st0 with
-  | Done st' => exists n s', (forall m, n <= m -> run m c (m0) = MHalted s') /\ mvars s' = vars st' /\ mscreen s' = screen st'
-  | Failed x q st' => exists n s', (forall m, n <= m -> run m c (m0) = MError x q s') /\ mscreen s' = screen st'
+  | Done st' => exists n s', (forall m, n <= m -> run m c (m0) = MHalted s') /\ mvars s' = vars st' /\ of_mio (mscreen s') = screen st'
+  | Failed x q st' => exists n s', (forall m, n <= m -> run m c (m0) = MError x q s') /\ of_mio (mscreen s') = screen st'
   | _ => False
   end.
 Proof.
@@ -471,7 +484,7 @@ Proof.
       rewrite stepn_add, H. cbn [stepn]. unfold Machine.step. cbn [pc boundary].
       rewrite Ec, nth_error_app2 by lia. replace (0 + _ - _) with 0 by lia. reflexivity.
     + reflexivity.
-    + reflexivity.
+    + apply of_to_mio.
   - destruct H as (k & s' & H & Hd). exists k, s'. split; [|exact Hd].
     intros m Hm. apply run_stepn_stop with (n := k); [exact H|exact I|exact Hm].
 Qed.
